@@ -360,7 +360,7 @@ def c16(v, tier):
     with N.Server(bins["tftpd"], sbL["srv"], dup=254, logdir=sbL["logs"]) as srvL:
         evals += 1
         copies, data, note = ack_every_copy_download(srvL.addr, "L.bin", [("windowsize", 5), ("timeout", 1)], 255, budget_s=25)
-        finished = bool(copies) and "giving up" not in note and data == contentL
+        finished = bool(copies) and "giving up" not in note and len(data) == len(contentL)
         too_many = {k: c for k, c in copies.items() if c > 255}
         wrong = too_many or ({k: c for k, c in copies.items() if c != 255} if finished else {})
         replay = {"engine": "net", "config": "N=254,windowsize=5,timeout=1", "copies": copies, "note": note}
@@ -491,6 +491,45 @@ def c07(v, tier):
     return {"net_termination_cases": evals}, evals
 
 
+def oack_lost_fallback(v, srv, name, content, blksize, pid):
+    """RFC 2347: a client that never sees the OACK behaves as if no option had been requested (512-byte blocks,
+    516-byte buffer, lock-step). Whatever the server does then, the client must not *complete* with other bytes."""
+    s = N._sock(srv.family, timeout=1.0)
+    tr = N.Transfer()
+    try:
+        s.sendto(N.enc_req(N.RRQ, name, options=[("blksize", blksize), ("timeout", 1)]), srv.addr)
+        k, f, peer = N.recv(s, tr)            # this is the OACK; the client "loses" it
+        if k != "OACK":
+            return "no-oack"
+        got = bytearray()
+        expected = 1
+        t_end = time.time() + 3.0   # the server's wait for ACK 0 is the negotiated 1 s
+        while time.time() < t_end:
+            s.settimeout(max(0.1, t_end - time.time()))
+            try:
+                buf, src = s.recvfrom(516)    # a default client's buffer: longer datagrams are cut
+            except socket.timeout:
+                break
+            k2, f2 = N.dec(buf)
+            if k2 == "OACK":
+                continue                      # a repeated OACK is lost as well
+            if k2 == "ERROR":
+                return "server-gave-up"
+            if k2 == "DATA" and f2["blk"] == expected:
+                got += f2["data"]
+                s.sendto(N.enc_ack(expected), src)
+                expected += 1
+                if len(f2["data"]) < 512:
+                    if bytes(got) != content:
+                        v.violation(f"{pid}/net/oack-lost-fallback", f"{'single' if srv.single else 'multi'}-port: the OACK (blksize {blksize}) was lost; a client falling back to RFC 1350 defaults completed with {len(got)} bytes that differ from the {len(content)}-byte file",
+                                    {"engine": "net", "scenario": "OACK lost, client uses defaults", "blksize": blksize, "single_port": srv.single, "got_len": len(got), "file_len": len(content)})
+                        return "corrupt-copy"
+                    return "complete-identical"
+        return "no-completed-copy"
+    finally:
+        s.close()
+
+
 def c01_c04(v, tier, pid):
     ctx = Ctx(pid, tier)
     tftpd = ctx.bins["release"]["tftpd"]
@@ -533,9 +572,21 @@ def c01_c04(v, tier, pid):
             if not ok:
                 v.violation(f"{pid}/net/{kind}", f"{'single' if srv.single else 'multi'}-port: {kind} windowsize {w} with emulated loss/duplication at blocks {drop} did not yield a byte-identical file ({note})",
                             {"engine": "net", "kind": kind, "windowsize": w, "faults_at_blocks": drop, "single_port": srv.single})
+    fallback = {}
+    if pid == "C01":
+        jobs = []
+        for srv in servers:
+            for blksize in (128, 1024, 8):
+                small = N.keyed_content(f"fb{blksize}", 2000 if blksize != 1024 else 2148)
+                write(os.path.join(srv.args[srv.args.index("-d") + 1], f"fb{blksize}.bin"), small)
+                jobs.append((srv, f"fb{blksize}.bin", small, blksize))
+        with concurrent.futures.ThreadPoolExecutor(max_workers=6) as ex:
+            for r in ex.map(lambda j: oack_lost_fallback(v, j[0], j[1], j[2], j[3], pid), jobs):
+                evals += 1
+                fallback[r] = fallback.get(r, 0) + 1
     for s in servers:
         s.stop()
-    return {"net_spot_checks": evals}, evals
+    return {"net_spot_checks": evals, "oack_lost_fallback_outcomes": fallback}, evals
 
 
 def c15(v, tier):
